@@ -186,6 +186,7 @@ U_CtxA ==
      U_Map1(U_KA, U_Call("vmod.rec", <<>>)), U_Map1(U_KB, U_Call("vmod.rec", <<>>)),
      U_EList, U_List(<<U_I("5"), U_I("6")>>), U_List(<<U_I("5"), U_I("6"), U_I("7")>>), U_T(U_List(<<U_I("5")>>), "merge"),
      U_List(<<U_Map1(U_KA, U_I("5"))>>), U_List(<<U_Map1(U_KB, U_I("5")), U_I("6")>>), U_List(<<U_List(<<U_I("5"), U_I("6")>>)>>),
+     U_List(<<U_List(<<U_List(<<U_I("5"), U_I("6")>>)>>)>>), U_Map1(U_KA, U_List(<<U_List(<<U_I("5"), U_I("6")>>)>>)),
      U_T(U_List(<<U_T(U_List(<<U_I("5"), U_I("6")>>), "merge")>>), "merge"), U_T(U_List(<<U_T(U_Map1(U_KB, U_I("5")), "del")>>), "merge"),
      SD("dict", NoVal, << <<IKey(0), U_I("5")>> >>), SD("dict", NoVal, << <<IKey(0), U_Map1(U_KB, U_I("5"))>> >>),
      U_Call("vmod.rec", << <<U_KA, U_I("5")>> >>), U_Call("vmod.rec2", << <<U_KB, U_I("5")>> >>), U_Call("vmod.rec", <<>>), U_S("vmod.rec2"),
@@ -206,7 +207,8 @@ U_CtxBig == U_CtxDocs \ U_CtxSmall
 U_Quick    == U_QFocusPr \cup U_QFocusDel \cup U_QFocusNew \cup U_QFocusSafe \cup U_QKinds \cup U_Siblings
 U_Thorough == U_Quick \cup U_FocusPr \cup U_FocusDel \cup U_FocusNew \cup U_FocusSafe \cup U_Kinds \cup U_AllXZ \cup U_Pairs3
 \* narrow universes for the mutation cfgs
-U_MutDel   == U_Chain({U_None, U_D(PrNone, "T", "N", "N", U_Md)}, U_DDel, U_DDel, {"dict", "list"}, {U_I("1"), U_EList, U_List(<<U_I("1")>>)}, {U_EList, U_EMap})
+U_MutDel   == U_Chain({U_None, U_D(PrNone, "T", "N", "N", U_Md), U_D(PrNone, "F", "N", "N", U_Md)}, U_DDel, U_DDelZ, {"dict", "list"},
+                      {U_I("1"), U_EList, U_List(<<U_I("1")>>), U_List(<<U_List(<<U_I("1")>>)>>)}, {U_EList, U_EMap})
 U_MutNew   == U_Chain(U_DNew, U_DNew, U_DNewZ, {"dict", "list"}, {U_EMap, U_Map1(U_KA, U_I("1"))}, {U_I("1")})
 U_MutSafe  == U_Chain({U_None, U_D(PrNone, "N", "N", "F", U_Md)}, U_DSafe, U_DSafeZ, {"dict", "list"}, {U_I("1"), U_Call("vmod.rec", <<>>), U_EMap}, {U_I("1"), U_Call("vmod.rec", <<>>)})
 U_MutKinds == U_Dec({U_Map1(U_KA, x) : x \in U_Dec(U_KindLeaves \cup {U_Null, U_Apply(U_S("a\\b"), U_D(1, "N", "N", "N", {}))}, U_DKind)}, {U_None})
